@@ -25,7 +25,13 @@ pub fn backends_strategy(with_rln: bool) -> BoxedStrategy<Vec<BackendKind>> {
 
 /// run a history on every backend of the case; returns the failure (if any)
 pub fn run_history(ctx: &Ctx, case: &TreeCase, focus: Focus, batch_panic_is_violation: bool, o: &mut Outcome) {
+    let only = std::env::var("VERIF_DEBUG_BACKENDS").ok();
     for kind in &case.backends {
+        if let Some(f) = &only {
+            if !f.split(',').any(|x| x == kind.name()) {
+                continue;
+            }
+        }
         let mut b = match guarded(|| make_backend(*kind, case.depth)) {
             Ok(b) => b,
             Err(p) => {
@@ -122,6 +128,8 @@ impl Property for C06 {
             .prop_map(|(depth, backends, ops)| {
                 // the big in-memory trees are expensive to build at depth 20: keep pm/rln there
                 let backends = if depth == 20 { vec![BackendKind::Optimal, BackendKind::Pm] } else { backends };
+                let mut ops = ops;
+                tame_for_depth20(depth, &mut ops);
                 TreeCase { depth, backends, ops }
             })
             .boxed()
